@@ -114,7 +114,7 @@ def r12_2(ctx):
         addr = rv[2][0][1]
         # cell whose address is returned
         cell = addr[1] if addr[0] == 'field' and addr[2] == 'addr' else None
-        eqs = [d for d in p.decisions if is_call(d[2], '::eq') and d[3] == 1]
+        eqs = [d for d in p.decisions if (is_call(d[2], '::eq') and d[3] == 1) or (is_call(d[2], '::ne') and d[3] == 0)]
         occ = [d for d in p.decisions if is_call(d[2], 'RegistryCell::is_none') and d[3] == 0]
         pos = [d for d in p.decisions if d[2][0] == 'discr' and is_call(d[2][1], '::position') and d[3] == 1]
         ok = False
